@@ -523,6 +523,24 @@ func c12(r *Report) {
 	})
 
 	r.Guard("C12.R5", "a filter applies its modifier when the condition holds and the else-branch otherwise", func() {
+		// a condition is evaluated on the message in hand: no matcher keeps or reads anything in the
+		// exchange's context (a parsed value remembered from the request side, or from before an
+		// earlier sibling rewrote the message, answers for another message)
+		for _, pk := range []string{"querystring", "header", "martianurl", "cookie", "method", "port"} {
+			for _, f := range w.Funcs(pk) {
+				if f.Name() != "MatchRequest" && f.Name() != "MatchResponse" && f.Name() != "matches" {
+					continue
+				}
+				r.Touch(f)
+				bad := ""
+				for _, g := range w.staticReach(f) {
+					for _, c := range calls(g, "(*M.Context).Get", "(*M.Context).Set", "(*M.Session).Get", "(*M.Session).Set") {
+						bad = calleeName(c) + " in " + fnName(g)
+					}
+				}
+				r.Decide("callgraph", fnName(f)+" looks at the message only", bad == "", "no context or session value is read or written", "the matcher keeps state in the exchange's context ("+bad+"): a value parsed for the request, or before a sibling modifier rewrote the message, decides the branch for the message in hand", f.Pos())
+			}
+		}
 		// the host condition holds only when the whole pattern was matched: inside the scan of
 		// MatchHost a `true` is returned only under a test that the pattern index has reached 0
 		if mh := w.Fn("martianurl", "MatchHost"); mh != nil && mh.Blocks != nil && len(mh.Params) == 2 {
@@ -767,6 +785,8 @@ func c12(r *Report) {
 			r.Decide("path", "(*M/filter.Filter)."+side.mod+": the modifier set by "+side.fSetter+" runs on the non-matching edge", okF, "field "+fField.Name()+" invoked on match==false", "the else-branch modifier is not the one invoked when the condition does not hold", f.Pos())
 		}
 	})
+
+	r.Guard("C12.R7", "priorities are compared as the 64-bit integers the configuration gives", func() { priorityExactRule(r) })
 
 	r.Guard("C12.R6", "a FIFO group applies children in listed order; the first error stops it unless it aggregates, then all run and every error is added once", func() {
 		multiErrorOnlyGrows(r)
@@ -1220,4 +1240,30 @@ func multiErrorOnlyGrows(r *Report) {
 		}
 	}
 	r.Decide("flow", "M.MultiError: the error list is written by its methods", n >= 2, fmt.Sprintf("%d stores", n), "no store to errs found in the methods of MultiError", token.NoPos)
+}
+
+// priorityExactRule: priorities are 64-bit integers from the configuration to
+// the comparison: nothing in package priority converts a floating-point value
+// to an integer (two distinct priorities above 2^53 collapse into one and run
+// in listed order instead of by priority).
+func priorityExactRule(r *Report) {
+	w := r.W
+	n := 0
+	for _, f := range w.Funcs("priority") {
+		for _, in := range instrs(f) {
+			cv, ok := in.(*ssa.Convert)
+			if !ok {
+				continue
+			}
+			if b, isB := cv.X.Type().Underlying().(*types.Basic); isB && b.Info()&types.IsFloat != 0 {
+				if t, isT := cv.Type().Underlying().(*types.Basic); isT && t.Info()&types.IsInteger != 0 {
+					n++
+					r.Fail("flow", fnName(f)+": a priority goes through a floating-point value", "a float64 is converted to an integer in package priority: distinct 64-bit priorities that differ below 2^-53 of their size become equal, and equal priorities run later-listed-first instead of in descending order", nil, cv.Pos())
+				}
+			}
+		}
+	}
+	if n == 0 {
+		r.Hold("flow", "M/priority: priorities stay integers", "no conversion from a floating-point value to an integer")
+	}
 }
